@@ -30,6 +30,7 @@ type flowsState struct {
 	// engine2: two overlapping flows
 	specs2 map[string]flow2Spec
 	eng2   *engine2Inst
+	fm     string // engine: extra `method` criterion of the status Filter
 	same2  bool
 	lists2 map[string][]int
 	// overlap: direct mode on a manual clock, transactions may overlap inside the cool-down
@@ -97,6 +98,12 @@ func flowsOp(st *caseState, w []string) string {
 				return "bad-op"
 			}
 			fs.lo, fs.hi = lo, hi
+			if m, ok := kvS(w, "fm"); ok {
+				if mode != "engine" || m != "GET" {
+					return "bad-op"
+				}
+				fs.fm = m
+			}
 			if mode == "engine2" {
 				// optional: url2=same|items (flow B on the same url pattern as flow A), sa= / sb= flow-filter status lists
 				if u, ok := kvS(w, "url2"); ok {
@@ -158,7 +165,7 @@ func flowsOp(st *caseState, w []string) string {
 			}
 			var tmo int64
 			fmt.Sscan(fs.timeout, &tmo)
-			e, err := newEngine(scratch, name, int(att), int(cd), fmt.Sprintf("%.2f", float64(k4)/4), int(fs.lo), int(fs.hi), int(tmo))
+			e, err := newEngine(scratch, name, int(att), int(cd), fmt.Sprintf("%.2f", float64(k4)/4), int(fs.lo), int(fs.hi), int(tmo), fs.fm)
 			if err != nil {
 				return classifyInitErr(err)
 			}
